@@ -185,6 +185,15 @@ HugeM ==
             [NormalSent |-> Always(2), NormalRecv |-> Always(1)]),
          St(UpdTimer(FALSE, Const(HUGE), NoDist), NoCtr, NoCtr,
             [NormalSent |-> Always(0), NormalRecv |-> Always(2)])>>)
+\* schedules an action and can end inside the same call (batch), ends with an armed timer
+EndM ==
+  Mach(1000, Unset, 1000, Unset,
+       <<St(NoAction, NoCtr, NoCtr, [NormalSent |-> Always(1), TimerBegin |-> Always(2)]),
+         St(Pad(FALSE, FALSE, Const(7), NoDist), NoCtr, NoCtr,
+            [NormalRecv |-> <<T(END, 16)>>, NormalSent |-> Always(2), PaddingSent |-> <<T(END, 8)>>]),
+         St(UpdTimer(FALSE, Const(3), Const(1)), Ctr("inc"), NoCtr,
+            [NormalRecv |-> <<T(END, 16)>>, TimerBegin |-> Always(2), LimitReached |-> <<T(END, 16)>>,
+             NormalSent |-> Always(0)])>>)
 CoreMachines == {ProbM, TimerM, ChainM, HugeM, LimM("pad", Const(1)), SigBoth(8),
                  BlockM(TRUE, 2, Half), PadM(1, Half)}
 CoreConfs0 == {Cf(<<>>, Unset, Unset), Cf(<<>>, Half, Half)}
@@ -236,6 +245,7 @@ FamilyConfs(id) ==
                                                              b \in {SigOn("NormalSent"), SigEcho(16), SigBothOn("NormalRecv", 8)}}
     [] id = "sig-trio"     -> SigConfs3
     [] id = "sig-thorough" -> SigConfs1 \cup SigConfs2 \cup SigConfs3
+    [] id = "end-quick"    -> {Cf(<<EndM>>, Unset, Unset), Cf(<<EndM, Inert>>, Unset, Unset), Cf(<<Inert, EndM>>, Unset, Unset)}
     [] id = "core-quick"   -> CoreConfs0 \cup CoreConfs1
     [] id = "core-thorough" -> CoreConfs0 \cup CoreConfs1 \cup CoreConfs2
 
@@ -267,5 +277,6 @@ AlphabetOf(id) ==
     [] id = "sig"   -> Glob({"NormalSent", "NormalRecv", "TunnelRecv"}) \cup Addr({"PaddingSent"}, {0, 1, 2})
     [] id = "core"  -> Glob({"NormalSent", "NormalRecv", "BlockingEnd", "TunnelSent"})
                        \cup Addr({"PaddingSent", "BlockingBegin", "TimerBegin", "TimerEnd"}, {0, 5})
+    [] id = "end"   -> Glob({"NormalSent", "NormalRecv"}) \cup Addr({"PaddingSent", "TimerBegin", "TimerEnd"}, {0, 1})
     [] id = "full"  -> Glob(ExtKinds \ WithMachine) \cup Addr(WithMachine, {0, 1, 5})
 =============================================================================
